@@ -58,6 +58,28 @@ def _eligible(node: ast.AST) -> bool:
     return True
 
 
+def _eligible_generator(node: ast.AST) -> bool:
+    """a generator helper without `return`: `yield from helper(args)` as a whole statement is the helper's body with the
+    parameters bound (its yields are the caller's yields)"""
+    if not isinstance(node, ast.FunctionDef):
+        return False
+    decos = [ast.unparse(d) for d in node.decorator_list]
+    if any(d not in ("staticmethod", "classmethod") for d in decos) or node.args.vararg or node.args.kwarg:
+        return False
+    has_yield = False
+    todo = list(node.body)
+    while todo:
+        sub = todo.pop()
+        if isinstance(sub, (ast.FunctionDef, ast.AsyncFunctionDef, ast.Lambda, ast.ClassDef)):
+            continue
+        if isinstance(sub, (ast.Return, ast.Await, ast.Global, ast.Nonlocal)):
+            return False
+        if isinstance(sub, (ast.Yield, ast.YieldFrom)):
+            has_yield = True
+        todo.extend(ast.iter_child_nodes(sub))
+    return has_yield
+
+
 class _Rename(ast.NodeTransformer):
     def __init__(self, mapping: dict[str, str]):
         self.mapping = mapping
@@ -247,6 +269,19 @@ def _inline_in(prg, caller, new: set[str], counter: list[int]) -> int:  # type: 
             for idx, stmt in enumerate(block):
                 if isinstance(stmt, ast.With) and stmt.items and isinstance(stmt.items[0].context_expr, ast.Call) and getattr(stmt.items[0].context_expr.func, "id", "") == MARK:
                     continue
+                if isinstance(stmt, ast.Expr) and isinstance(stmt.value, ast.YieldFrom) and isinstance(stmt.value.value, ast.Call):
+                    gcall = stmt.value.value
+                    gres = prg.resolve_callee(caller, gcall.func)
+                    gtarget = prg.funcs.get(gres) if gres in new and gres != caller.qualname else None
+                    if gtarget is not None and _eligible_generator(gtarget.node) and not any(isinstance(a, ast.Starred) for a in gcall.args) and not any(k.arg is None for k in gcall.keywords) \
+                            and not any(isinstance(n, ast.Call) and prg.resolve_callee(gtarget, n.func) == gres for n in ast.walk(gtarget.node)):
+                        fake = ast.copy_location(ast.Expr(value=gcall), stmt)
+                        new_stmts = _expand(prg, caller, fake, gcall, gtarget, "whole", counter)
+                        if new_stmts is not None:
+                            block[idx : idx + 1] = new_stmts
+                            count += 1
+                            changed = True
+                            break
                 own = [stmt.test] if isinstance(stmt, (ast.If, ast.While)) else ([stmt.value] if isinstance(stmt, (ast.Assign, ast.AnnAssign, ast.AugAssign, ast.Return, ast.Expr)) and stmt.value is not None else [])
                 for root in own:
                     for call in [n for n in ast.walk(root) if isinstance(n, ast.Call)]:
